@@ -136,12 +136,13 @@ theorem removal_ends_publisher_side {s s' : State} {th : Th} {ch ch2 : Nat} {ob 
   · rename_i e; rw [e] at hmem; simp at hmem
   · rfl
 
-/-- every scheduled notice is handed to the event loop (or its peer is no longer connected — then
+/-- every scheduled notice is handed to the event loop (unless the context itself is stopping, or its peer is no longer connected — then
 `handle_peer_context_removed` deals with that peer, see `disconnect_ends_this_side`) -/
 theorem removal_notice_is_sent {s s' : State} {th : Th} {sg : Sg} {d : Peer} {ns : List (Sg × Peer)} {ob : Obj} {rest : List MOp} {o : Out}
     (hmem : (sg, d) ∈ ns) (hs : microStep s th sg (peerCode d) (.notify ns ob) rest = some (s', o)) :
     ∃ x ∈ ns, x.1 = sg ∧ peerCode x.2 = peerCode d ∧
-      (((s.ctx th.ctx).peers x.2).isSome = true → ∃ tail, s'.prog th = .enq x.2 (.removed ob x.1) :: tail) := by
+      (((s.ctx th.ctx).peers x.2).isSome = true → (s.ctx th.ctx).routerDown = false →
+        ∃ tail, s'.prog th = .enq x.2 (.removed ob x.1) :: tail) := by
   simp only [microStep] at hs
   split at hs
   · rename_i hf
@@ -152,8 +153,8 @@ theorem removal_notice_is_sent {s s' : State} {th : Th} {sg : Sg} {d : Peer} {ns
     have hxm := List.mem_of_find?_eq_some hf
     simp only [decide_eq_true_eq] at hx
     refine ⟨x, hxm, hx.1, hx.2, ?_⟩
-    intro hp
-    simp only [hp, if_true, Option.some.injEq, Prod.mk.injEq] at hs
+    intro hp hrd
+    simp only [hp, hrd, Bool.not_false, Bool.and_self, if_true, Option.some.injEq, Prod.mk.injEq] at hs
     obtain ⟨rfl, -⟩ := hs
     exact ⟨_, by simp; rfl⟩
 
